@@ -1,4 +1,5 @@
 import SfxProofs.Convert
+import SfxModel.Generated
 /-
   C04 — Fixed<->fixed and fixed<->integer conversions are exact with precise overflow.
   `Layout.convExact S D x = ⌊x · 2^D.f / 2^S.f⌋`: the source value on the destination grid, excess fractional bits discarded
@@ -42,6 +43,40 @@ theorem integers (L : Layout) (hL : L.valid) (si : Bool) (ni : Nat) (hni : ni = 
 theorem bound_tight (S D : Layout) (hS : S.valid) (hD : D.valid) (hs : S.signed = D.signed) (hf : S.f ≤ D.f)
     (hb : S.n - S.f = D.n - D.f + 1) : ∃ x, inRange S x ∧ ¬ inRange D (Layout.convExact S D x) :=
   from_bound_tight S D hS hD hs hf hb
+
+/-! ### the type-level bounds of `convert.rs`, regenerated from the source on every run (`Generated.fromImpls`) -/
+
+/-- an impl row is sound when `From` carries the fractional-bit clause and the constant of its integer-bit clause is the destination
+width (same signedness) or the width minus the sign bit (unsigned → signed); signed → unsigned is never offered -/
+def implSound : String × Bool × Nat × Bool × Nat × Bool × Nat → Bool
+  | (tr, ss, _sn, ds, dn, leF, ib) =>
+    (tr == "LossyFrom" || (tr == "From" && leF)) && (if ss == ds then ib == dn else (!ss && ds && ib + 1 == dn))
+
+/-- every `From` / `LossyFrom` impl between fixed-point types found in the source is sound … -/
+theorem from_table_sound : Generated.fromImpls.all implSound = true := by decide
+
+/-- … and complete: all ten widening pairs × three sign combinations for `From`, all 25 pairs × three for `LossyFrom` -/
+theorem from_table_counts :
+    (Generated.fromImpls.filter (·.1 == "From")).length = 30 ∧ (Generated.fromImpls.filter (·.1 == "LossyFrom")).length = 75 := by decide
+
+/-- what soundness of a row means: whenever the where-clauses of the impl hold for concrete fractional-bit counts, the pair of layouts is
+admissible in the sense used by `holds` (so the conversion is value-preserving / loses only fractional bits and cannot overflow) -/
+theorem implSound_admissible (tr : String) (ss : Bool) (sn : Nat) (ds : Bool) (dn : Nat) (leF : Bool) (ib : Nat)
+    (h : implSound (tr, ss, sn, ds, dn, leF, ib) = true) (fs fd : Nat) (hfs : fs ≤ sn) (hfd : fd ≤ ib)
+    (hfrac : leF = true → fs ≤ fd) (hint : sn - fs ≤ ib - fd) :
+    lossyAdmissible ⟨ss, sn, fs⟩ ⟨ds, dn, fd⟩ ∧ (tr = "From" → fromAdmissible ⟨ss, sn, fs⟩ ⟨ds, dn, fd⟩) := by
+  unfold implSound at h
+  simp only [Bool.and_eq_true, Bool.or_eq_true, beq_iff_eq] at h
+  obtain ⟨htr, hb⟩ := h
+  have hl : lossyAdmissible ⟨ss, sn, fs⟩ ⟨ds, dn, fd⟩ := by
+    unfold lossyAdmissible
+    cases ss <;> cases ds <;> simp_all <;> omega
+  refine ⟨hl, fun hfrom => ?_⟩
+  rw [fromAdmissible_iff]
+  refine ⟨?_, hl⟩
+  rcases htr with h | ⟨_, h⟩
+  · rw [hfrom] at h; simp at h
+  · exact hfrac h
 
 /-- non-vacuity: a widening signed→signed pair admitted by `From`, and a narrowing pair that overflows -/
 example : (⟨true, 8, 3⟩ : Layout).valid ∧ (⟨true, 32, 16⟩ : Layout).valid ∧ fromAdmissible ⟨true, 8, 3⟩ ⟨true, 32, 16⟩ ∧
